@@ -29,6 +29,9 @@ type Spec struct {
 	// Extra lets a check add coverage keys.
 	Extra      func(cov map[string]interface{}, outs []Outcome)
 	MaxReplays int
+	// ModelConfirmed: obligations whose counterexample cannot be replayed natively (e.g. it needs a
+	// particular worker order) are confirmed by concrete evaluation under the solver's model instead.
+	ModelConfirmed func(o *Outcome, ob *OblResult) bool
 	// NoReplayKinds: obligation kinds that cannot be replayed natively (reported as ENCODING-MISMATCH if violated without replay)
 	Program *symgo.Program
 }
@@ -168,7 +171,7 @@ func Finish(sp *Spec, outs []Outcome, t0 time.Time, loadS float64) int {
 					violations = append(violations, fmt.Sprintf("UNREPLAYED property=%s key=%q (replay budget used)", sp.ID, key))
 					continue
 				}
-				if ob.Pos == "hdl" || ob.Pos == "hdl-vs-sim" {
+				if ob.Pos == "hdl" || ob.Pos == "hdl-vs-sim" || (sp.ModelConfirmed != nil && sp.ModelConfirmed(o, ob)) {
 					// obligations over generated HDL: no native Verilog simulator exists in this image; the
 					// counterexample is confirmed by evaluating the obligation concretely under the model
 					// (independent of the solver) and stored as a trace
